@@ -59,3 +59,12 @@ package zebra
 //@   claims at-return
 //@   at-return requires ret1 == nil ==> len(ret0) >= pos + 3 && ret0[0] == n.connected && int(ret0[pos])*256 + int(ret0[pos+1]) == int(n.Family) && int(ret0[pos+2]) == 8*addrByteLen
 //@   at-return requires ret1 == nil && pos == 4 ==> ret0[1] == n.resolveViaDef && int(ret0[2])*256 + int(ret0[3]) == int(SafiUnicast)
+
+// from C19 "every record the daemon emits parses back": the label count octet (and the labels) of a next hop are
+// written under the condition the decoder reads them under - the next hop's own label flag, or the message's label
+// bit for the ZAPI flavours that signal labels per message (version 5, FRR 6.0 - 7.2) - not for every next hop of
+// those flavours
+//@ props C19
+//@ func (Nexthop).encode
+//@   claims inv-init
+//@   loop 0 invariant n.flags&zapiNexthopFlagLabel > 0 || message&MessageLabel > 0
